@@ -1,6 +1,7 @@
 package sym
 
 import (
+	"bytes"
 	"fmt"
 	"os"
 	"path/filepath"
@@ -28,14 +29,42 @@ func vconc(x, lo, hi int) int
 func vlog(v any)
 func vsample(s string)
 func vnote(s string)
+func vparam(name string) int
 `
 
 var pkgRe = regexp.MustCompile(`(?m)^package\s+(\w+)`)
 
-// HarnessOverlay maps harness files under hdir/<pkgrel>/*.go into repo/<pkgrel>/zz_verif_*.go
-// (symbolic flavour: files tagged verifreplay are skipped by the build tag itself).
-func HarnessOverlay(repo, hdir string, pkgs []string) (map[string][]byte, error) {
+// HarnessPackages lists the package directories (relative to the repo root) that have harness files.
+func HarnessPackages(hdir string) ([]string, error) {
+	var out []string
+	err := filepath.Walk(hdir, func(p string, info os.FileInfo, err error) error {
+		if err != nil {
+			return err
+		}
+		if info.IsDir() && strings.HasPrefix(info.Name(), "_") {
+			return filepath.SkipDir
+		}
+		if !info.IsDir() && strings.HasSuffix(p, ".go") {
+			rel, _ := filepath.Rel(hdir, filepath.Dir(p))
+			for _, o := range out {
+				if o == rel {
+					return nil
+				}
+			}
+			out = append(out, rel)
+		}
+		return nil
+	})
+	return out, err
+}
+
+// HarnessOverlay maps harness files under hdir/<pkgrel>/*.go into repo/<pkgrel>/zz_verif_*.go,
+// adds the shared helpers from hdir/_common (package name substituted) and the
+// bodiless primitive declarations. native selects the replay flavour instead
+// (bodies that pop values from a vector; see native.go).
+func HarnessOverlay(repo, hdir string, pkgs []string, native bool) (map[string][]byte, error) {
 	ov := make(map[string][]byte)
+	common, _ := os.ReadDir(filepath.Join(hdir, "_common"))
 	for _, rel := range pkgs {
 		dir := filepath.Join(hdir, rel)
 		ents, err := os.ReadDir(dir)
@@ -59,8 +88,26 @@ func HarnessOverlay(repo, hdir string, pkgs []string) (map[string][]byte, error)
 		if pkgName == "" {
 			return nil, fmt.Errorf("no harness files in %s", dir)
 		}
-		decl := "//go:build !verifreplay\n\npackage " + pkgName + "\n" + Decls
-		ov[filepath.Join(repo, rel, "zz_verif_decls.go")] = []byte(decl)
+		if _, err := os.Stat(filepath.Join(dir, ".nocommon")); err != nil {
+			for _, c := range common {
+				if !strings.HasSuffix(c.Name(), ".go") {
+					continue
+				}
+				b, err := os.ReadFile(filepath.Join(hdir, "_common", c.Name()))
+				if err != nil {
+					return nil, err
+				}
+				b = bytes.Replace(b, []byte("package PKG"), []byte("package "+pkgName), 1)
+				ov[filepath.Join(repo, rel, "zz_verif_common_"+c.Name())] = b
+			}
+		}
+		if native {
+			ov[filepath.Join(repo, rel, "zz_verif_native.go")] = []byte(strings.Replace(NativeDecls, "package PKG", "package "+pkgName, 1))
+			ov[filepath.Join(repo, rel, "zz_verif_native_test.go")] = []byte(strings.Replace(NativeTest, "package PKG", "package "+pkgName, 1))
+		} else {
+			decl := "package " + pkgName + "\n" + Decls
+			ov[filepath.Join(repo, rel, "zz_verif_decls.go")] = []byte(decl)
+		}
 	}
 	return ov, nil
 }
